@@ -101,11 +101,12 @@ class Base(common.Harness):
         return int(x, *a)
 
     # ---- document pieces
-    def pieces(self, k, first_cut, tagp):
-        """k consecutive pieces starting at cut `first_cut`; returns (words, cuts)."""
+    def pieces(self, k, first_cut, tagp, before=None):
+        """k consecutive pieces starting at cut `first_cut`; returns (words, cuts).  `before`: the piece that
+        precedes the first one (so that adjacency constraints apply across the seam)."""
         eng, M = self.eng, self.M
         cuts = [first_cut] + [z3.Int(f"{tagp}{j}") for j in range(k)]
-        words = []
+        words = [before] if before is not None else []
         for j in range(k):
             eng.add(cuts[j] < cuts[j + 1])
             kind = PIECE_KINDS[eng.choose([z3.Int(f"{tagp}k{j}") == x for x in range(len(PIECE_KINDS))])]
@@ -113,15 +114,24 @@ class Base(common.Harness):
             a, b = SInt(cuts[j]), SInt(cuts[j + 1])
             if kind == "word":
                 words.append(data)
-            elif kind == "stop_v":
-                words.append(M.StopWordToken(data, a, b, groups={"stop_word": "v"}))
-            elif kind == "stop_other":
-                words.append(M.StopWordToken(data, a, b, groups={"stop_word": "see"}))
+            elif kind in ("stop_v", "stop_other"):
+                # STOP_WORD_REGEX is (?:^|\s)(...)(?:\s|$): the character before a stop-word token is white
+                # space, i.e. the previous piece is a " " word or a paragraph token (tokens exclude that character)
+                if words:
+                    prev = words[-1]
+                    if isinstance(prev, TStr):
+                        if not bool(prev == " "):
+                            raise symex.Infeasible()
+                    elif not isinstance(prev, M.ParagraphToken):
+                        raise symex.Infeasible()
+                words.append(M.StopWordToken(data, a, b, groups={"stop_word": "v" if kind == "stop_v" else "see"}))
             elif kind == "cite":
                 words.append(M.CitationToken(data, a, b, groups={"volume": "9", "reporter": "Z", "page": "9"}, exact_editions=(us_edition(),)))
             else:
                 words.append(M.ParagraphToken(data, a, b, groups={}))
             self.kinds.append(kind)
+        if before is not None:
+            words = words[1:]
         return words, cuts
 
     def window(self, before, after, short=False, tokcls="cite"):
@@ -158,7 +168,7 @@ class Base(common.Harness):
             tok = M.IdToken(data, SInt(ts), SInt(te), groups={})
         else:
             tok = M.SupraToken(data, SInt(ts), SInt(te), groups={})
-        wa, ca = self.pieces(na, te, "a")
+        wa, ca = self.pieces(na, te, "a", before=tok)
         eng.add(ca[-1] <= self.n)
         # the window starts at the beginning of the text when nothing precedes it
         self.first_cut = p0
@@ -435,6 +445,56 @@ class HPar(Base):
         return [self.check("C17:par:metadata_inside_own_or_joint_extent_of_citations_starting_together", z3.And(*conds) if conds else z3.BoolVal(True), self.witness)]
 
 
+class HMono(Base):
+    """lemma for C03's envelope: for two full case citations in one document (i before j) the full-span start
+    computed for j (add_defendant, then add_pre_citation) is never smaller than the one computed for i."""
+
+    part = "mono"
+
+    def run(self):
+        eng, M = self.eng, self.M
+        self.kinds, self.matches = [], []
+        n1 = eng.choose([z3.Int("n_before_i") == k for k in range(self.W + 1)])
+        n2 = eng.choose([z3.Int("n_between") == k for k in range(self.W + 1)])
+        p0 = z3.Int("p0")
+        eng.add(p0 >= 0)
+        w1, c1 = self.pieces(n1, p0, "b")
+
+        def cite(start, tag):
+            te = z3.Int(tag + "_end")
+            eng.add(start < te)
+            return M.CitationToken(TStr.sub(start, te, self.n), SInt(start), SInt(te), groups={"volume": "1", "reporter": "U.S.", "page": "1"}, exact_editions=(us_edition(),)), te
+
+        ti, ei = cite(c1[-1], "ti")
+        w2, c2 = self.pieces(n2, ei, "m", before=ti)
+        tj, ej = cite(c2[-1], "tj")
+        eng.add(ej <= self.n)
+        words = w1 + [ti] + w2 + [tj]
+        self.ts, self.te = c2[-1], ej
+        ii, jj = len(w1), len(w1) + 1 + len(w2)
+        out = []
+        for tok, idx in ((ti, ii), (tj, jj)):
+            c = M.FullCaseCitation(tok, idx, exact_editions=(us_edition(),))
+            self.run_with_clock(lambda: self.interp.call(self.Hh.add_defendant, (c, words), {}))
+            self.interp.call(self.Hh.add_pre_citation, (c, words), {})
+            out.append(c)
+        self.si, self.sj = c1[-1], c2[-1]
+        return out
+
+    def witness(self, m):
+        w = Base.witness(self, m)
+        w["first_citation_start"] = mval(m, self.si)
+        return w
+
+    def judge(self, kind, out):
+        if kind == "exc":
+            return self.exc(out)
+        a, b = out
+        fa = lift_int(a.full_span_start) if a.full_span_start is not None else self.si
+        fb = lift_int(b.full_span_start) if b.full_span_start is not None else self.sj
+        return [self.check("C03lemma:mono:full_span_starts_monotone_in_document_order", fa <= fb, self.witness)]
+
+
 class HRef(Base):
     part = "ref"
 
@@ -525,7 +585,7 @@ class HParen(common.Harness):
         return [self.check("lemma:process_parenthetical_returns_None_or_prefix", z3.BoolVal(bool(ok)), self.witness)]
 
 
-PARTS = {"post": HPost, "defn": HDef, "pre": HPre, "short": HShort, "supra": HSupra, "id": HId, "law": HLaw, "journal": HJournal, "par": HPar, "ref": HRef, "paren": HParen}
+PARTS = {"post": HPost, "defn": HDef, "pre": HPre, "short": HShort, "supra": HSupra, "id": HId, "law": HLaw, "journal": HJournal, "par": HPar, "ref": HRef, "paren": HParen, "mono": HMono}
 
 
 def make(params):
@@ -734,6 +794,8 @@ def explore_parts(rep, pid, parts=None):
     tot = {}
     for part in parts or QUICK_PARTS:
         params = {"part": part, "W": W if part != "post" else (2 if quick else 3)}
+        if part == "mono":
+            params["W"] = 1 if quick else 2
         agg = common.explore_split("vf.harness.c02", params, depth=4, timeout=7200)
         rep.merge_explore(part, agg)
         findings += [(part, f) for f in agg["findings"]]
@@ -843,7 +905,7 @@ def fold_into_c03(rep):
 
     from vf.harness import c03
 
-    findings, W = explore_parts(rep, "C03lemma", parts=["short", "supra", "id"])
+    findings, W = explore_parts(rep, "C03lemma", parts=["short", "supra", "id", "mono"])
     cex = [f for _, f in findings if f["verdict"] == "cex"]
     for _, f in findings:
         if f["verdict"] != "cex":
